@@ -17,6 +17,7 @@ import ast
 from rules import _converter as cv
 from sa.cfg import CFG
 from sa.model import full, AnalysisError, Repo, calls_in, dotted, norm, own_nodes
+from sa.match import Locals, match, names_in
 from sa.report import Report
 
 
@@ -29,25 +30,46 @@ def run(repo: Repo, rep: Report, tier: str) -> None:
     # ---------------------------------------------------------------- R3.2
     gen = repo.func("visit.model.dataclass_generator:DataclassGenerator.generate")
     cfg = CFG(gen.node)
-    loops = [n for n in own_nodes(gen.node) if isinstance(n, ast.For) and "sorted_props" in norm(n.iter)]
+    L = Locals(gen.node)
+    # the property loop: `for <key>, <schema> in <something derived from X.properties.items()>`
+    loops = [n for n in own_nodes(gen.node) if isinstance(n, ast.For) and isinstance(n.target, ast.Tuple) and len(n.target.elts) == 2
+             and any(isinstance(x, ast.Attribute) and x.attr == "properties" for x in ast.walk(L.inline(n.iter)))]
     rep.require(len(loops) == 1, f"R3.2: expected one property loop in DataclassGenerator.generate, found {len(loops)}")
+    # the containers handed to the renderer (public keyword names of render_dataclass)
+    rcalls = [c for c in calls_in(gen.node) if isinstance(c.func, ast.Attribute) and c.func.attr == "render_dataclass"]
+    rep.require(len(rcalls) >= 1, "R3.2: no render_dataclass(...) call in DataclassGenerator.generate")
+
+    def container(kw: str) -> Optional[str]:
+        for c in rcalls:
+            for k in c.keywords:
+                if k.arg == kw:
+                    cands = [n for n in names_in(k.value) if any(kind == "assign" and isinstance(v, (ast.Dict, ast.List, ast.Call)) for kind, v, _ in L.defs.get(n, []))]
+                    return cands[0] if cands else None
+        return None
+
+    map_var, list_var = container("field_mappings"), container("fields")
+    if loops and (map_var is None or list_var is None):
+        raise AnalysisError("R3.2: cannot identify the containers passed as field_mappings= / fields= to render_dataclass")
     for lp in loops:
+        key_var = lp.target.elts[0].id if isinstance(lp.target.elts[0], ast.Name) else None  # type: ignore[attr-defined]
         hdr = [n.id for n in cfg.nodes if n.kind == "iter" and n.stmt is lp]
         maps = {n.id for n in cfg.nodes if n.kind == "stmt" and isinstance(n.ast, ast.Assign) and isinstance(n.ast.targets[0], ast.Subscript)
-                and norm(n.ast.targets[0].value) == "field_mappings" and norm(n.ast.targets[0].slice) == "prop_name" and norm(n.ast.value) == "field_name"}
+                and isinstance(n.ast.targets[0].value, ast.Name) and L.root(n.ast.targets[0].value.id) == map_var
+                and isinstance(n.ast.targets[0].slice, ast.Name) and L.root(n.ast.targets[0].slice.id) == key_var}
         apps = {n.id for n in cfg.nodes if n.kind == "stmt" and n.ast is not None and any(
-            isinstance(c.func, ast.Attribute) and c.func.attr == "append" and norm(c.func.value) == "fields_data" for c in calls_in(n.ast))}
-        for label, nodes in (("wire-key mapping `field_mappings[prop_name] = field_name`", maps), ("field record `fields_data.append(...)`", apps)):
+            isinstance(c.func, ast.Attribute) and c.func.attr == "append" and isinstance(c.func.value, ast.Name) and L.root(c.func.value.id) == list_var
+            for c in calls_in(n.ast))}
+        for label, nodes in ((f"wire-key mapping `{map_var}[{key_var}] = <field name>`", maps), (f"field record `{list_var}.append(...)`", apps)):
             w = None
             for m, lab in cfg.succ[hdr[0]]:
                 if lab == "loop" and m not in nodes:
                     w = w or cfg.must_pass(m, nodes, {hdr[0], cfg.exit})
-            sub = f"{gen.module.relpath}:DataclassGenerator.generate {label}"
+            sub = f"{gen.module.relpath}:DataclassGenerator.generate {label.split('`')[0].strip()}"
             if nodes and w is None:
-                rep.ok("R3.2", sub, "executed on every path through every iteration of the property loop", gen.loc(lp))
+                rep.ok("R3.2", sub, f"{label}: executed on every path through every iteration of the property loop", gen.loc(lp))
             else:
-                rep.violation("R3.2", sub, f"{gen.fq}|per-property|{label[:20]}|{cfg.describe_path(w or [])}",
-                              f"a property can pass through the loop without this step ({cfg.describe_path(w or [])}): the field or its wire key is lost", gen.loc(lp))
+                rep.violation("R3.2", sub, f"{gen.fq}|per-property|{label.split('`')[0].strip()}",
+                              f"a property can pass through the loop without {label} ({cfg.describe_path(w or [])}): the field or its wire key is lost", gen.loc(lp))
     # distinct field names are what makes the two Meta maps mutually inverse bijections
     from rules.c20 import _dedup_site
 
@@ -60,19 +82,25 @@ def run(repo: Repo, rep: Report, tier: str) -> None:
 
     _dedup_site(gen, "dataclass fields", "seen_field_names", _R())
     rd = repo.func("core.writers.python_construct_renderer:PythonConstructRenderer.render_dataclass")
-    floops = sorted([n for n in own_nodes(rd.node) if isinstance(n, ast.For) and "field_mappings.items()" in norm(n.iter)], key=lambda n: n.lineno)
+    RL = Locals(rd.node)
+    floops = sorted([n for n, _ in RL.loops_over("field_mappings.items()") + RL.loops_over("sorted(field_mappings.items(), **ANY_)") + RL.loops_over("sorted(field_mappings.items())")
+                     if isinstance(n, ast.For)], key=lambda n: n.lineno)
+    floops = [n for i, n in enumerate(floops) if n not in floops[:i]]
+    orders = []
     texts = []
     for lp in floops:
+        if not (isinstance(lp.target, ast.Tuple) and len(lp.target.elts) == 2 and all(isinstance(e, ast.Name) for e in lp.target.elts)):
+            continue
+        api, py = lp.target.elts[0].id, lp.target.elts[1].id  # items(): (wire key, python name)
         for c in calls_in(lp):
             if isinstance(c.func, ast.Attribute) and c.func.attr == "write_line" and c.args:
                 texts.append(full(c.args[0]))
+                seq = [("api" if RL.root(n) == api else "py") for n in names_in(RL.inline(c.args[0], stop=(api, py))) if RL.root(n) in (api, py)]
+                orders.append(seq)
     sub = f"{rd.module.relpath}:render_dataclass Meta key maps"
-    ok = len(floops) == 2 and len(texts) == 2
-    if ok:
-        a, b = texts
-        # one line maps api->python, the other python->api, both from the same pair
-        ok = ("api_field" in a.split(":")[0] and "python_field" in a.split(":", 1)[1]) and ("python_field" in b.split(":")[0] and "api_field" in b.split(":", 1)[1])
+    # one line maps api->python, the other python->api, both from the same pairs
+    ok = len(floops) == 2 and sorted(map(tuple, orders)) == [("api", "py"), ("py", "api")]
     if ok:
         rep.ok("R3.2", sub, "key_transform_with_load and key_transform_with_dump are rendered from the same field_mappings pairs, swapped (mutually inverse by construction)", rd.loc())
     else:
-        rep.violation("R3.2", sub, f"{rd.fq}|meta-maps|{texts}", f"the two Meta maps are not the swapped rendering of one mapping: {texts}", rd.loc())
+        rep.violation("R3.2", sub, f"{rd.fq}|meta-maps|{orders}", f"the two Meta maps are not the swapped rendering of one mapping: {texts}", rd.loc())
